@@ -2127,6 +2127,15 @@ class CatchExceptionDataset(Dataset):
             LOG.info(f'{self.__class__.__name__} filtered {catched_count} of {total_count} examples (catched expections: {types}).')
 
 
+class _FilteredExample:
+    """
+    Marker for an example that was filtered by `catch_filter_exception`.
+    In contrast to `object()`, it is still recognised after it was pickled,
+    i.e. when it is returned from a worker process.
+    """
+    pass
+
+
 class PrefetchDataset(Dataset):
     def __init__(
             self,
@@ -2222,7 +2231,7 @@ class PrefetchDataset(Dataset):
             else:
                 catch_filter_exception = self.catch_filter_exception
 
-            unique_object = object()
+            unique_object = _FilteredExample()
 
             if with_key:
                 def catcher(key):
@@ -2247,7 +2256,7 @@ class PrefetchDataset(Dataset):
                 backend=self.backend,
             ):
                 total_count += 1
-                if data is unique_object:
+                if isinstance(data, _FilteredExample):
                     catched_count += 1
                 else:
                     yield data
